@@ -32,7 +32,7 @@ def strategy_(draw, tier):
     parts = draw(st.lists(gen.symm_st(sites, ("default", "ignore", "custom", "custom"), KINDS), min_size=2, max_size=4))
     N = M.n_modes(sites)
     ix = st.integers(0, N - 1)
-    comps = draw(st.lists(st.tuples(ix, ix, ix, ix), min_size=1, max_size=2, unique=True))
+    comps = draw(st.lists(gen.chi_quad_st(N), min_size=1, max_size=3, unique=True))
     triples = draw(st.lists(gen.triple_st(-3, 3), min_size=1, max_size=3, unique_by=tuple))
     susc = draw(st.lists(gen.susc_quad_st(N), min_size=1, max_size=3, unique=True))
     return {"model": mdl, "partitions": parts, "comps": [list(c) for c in comps], "triples": triples, "susc": [list(c) for c in susc]}
